@@ -42,6 +42,8 @@ def program():
         F(11, "default", T("TdList"), "tl"), F(12, "optional", T("MIn"), "o"), F(13, "required", T("list", T("i32")), "rl"),
         F(14, "default", T("map", T("byte"), T("i32")), "bym"), F(15, "default", T("map", T("i64"), T("MIn")), "lm"),
         F(16, "default", T("map", T("i16"), T("i32")), "hm"),
+        F(17, "default", T("list", T("list", T("i32"))), "ll"), F(18, "default", T("list", T("map", T("string"), T("i32"))), "lsm"),
+        F(19, "default", T("map", T("string"), T("list", T("i32"))), "ml"), F(20, "default", T("list", T("set", T("i32"))), "lx"),
         F(64, "default", T("i32"), "far")]}
     td = {"k": "typedef", "name": "TdList", "type": T("list", T("i32"))}
     return {"files": [{"path": "a.thrift", "namespaces": [{"lang": "go", "name": "mk"}], "defs": [td, mi, root]}]}
@@ -70,11 +72,15 @@ def value(k):
         "bym": {"m": [[a("i8:%d" % (i + 1)), a("i32:%d" % (81 + i))] for i in range(k)]},
         "lm": {"m": [[a("i64:%d" % (i + 1)), min_(90 + i, None, 95 + i)] for i in range(k)]},
         "hm": {"m": [[a("i16:%d" % (i + 1)), a("i32:%d" % (85 + i))] for i in range(k)]},
+        "ll": {"l": [{"l": [a("i32:%d" % (10 * (i + 1) + j)) for j in range(3)]} for i in range(min(k, 3))]},
+        "lsm": {"l": [{"m": [[a("str:k1"), a("i32:%d" % (i + 1))], [a("str:k2"), a("i32:%d" % (i + 5))]]} for i in range(min(k, 2))]},
+        "ml": {"m": [[a("str:k%d" % (i + 1)), {"l": [a("i32:%d" % (j + 1)) for j in range(3)]}] for i in range(min(k, 2))]},
+        "lx": {"l": [{"l": [a("i32:%d" % (j + 1)) for j in range(2)]} for i in range(min(k, 2))]},
         "far": a("i32:64")}}
 
 
 FID = {"s": 1, "rs": 2, "rin": 3, "n": 4, "li": 5, "ls": 6, "ss": 7, "sm": 8, "im": 9, "bm": 10, "tl": 11, "o": 12,
-       "rl": 13, "bym": 14, "lm": 15, "hm": 16, "far": 64, "x": 1, "y": 2, "z": 3}
+       "rl": 13, "bym": 14, "lm": 15, "hm": 16, "ll": 17, "lsm": 18, "ml": 19, "lx": 20, "far": 64, "x": 1, "y": 2, "z": 3}
 
 
 def path(s):
@@ -98,7 +104,8 @@ def path(s):
 ALPHABET = ['$.s', '$.rs', '$.rin', '$.rin.x', '$.n', '$.n.x', '$.n.y', '$.li', '$.li[5]', '$.li[*]', '$.ls[0].x', '$.ls[*].x',
             '$.ls[1].y', '$.ss[0]', '$.ss[1]', '$.sm{"k1"}', '$.sm{"k2"}.x', '$.sm{"zz"}', '$.sm{*}.x', '$.im{1}', '$.im{2}',
             '$.im{9}', '$.im{*}', '$.bm', '$.bm{*}', '$.tl[1]', '$.o', '$.o.x', '$.far', '$.rl',
-            '$.bym{1}', '$.bym{2}', '$.lm{1}.x', '$.lm{2}', '$.hm{1}']
+            '$.bym{1}', '$.bym{2}', '$.lm{1}.x', '$.lm{2}', '$.hm{1}',
+            '$.ll[1][0]', '$.ll[*][2]', '$.ll[0]', '$.lsm[0]{"k1"}', '$.lsm[*]{"k2"}', '$.ml{"k1"}[1]', '$.ml{*}[0]', '$.lx[0][1]']
 GROUPS = [['$.li[0]', '$.li[1]', '$.li[2]', '$.li[3]'], ['$.ls[0]', '$.ls[1]', '$.ls[2]', '$.ls[3]'],
           ['$.rl[0]', '$.rl[1]', '$.rl[2]', '$.rl[3]'], ['$.ss[0]', '$.ss[2]', '$.ss[3]'], ['$.im{1}', '$.im{3}', '$.im{4}']]
 
